@@ -705,6 +705,9 @@ func init() {
 	}
 	c13Seeds = append(c13Seeds, "steps:\n  - command: make\n    plugins:\n      - a#v1: {l: [{z: 1, a: 2}]}\n      - [bad]\n",
 		"steps:\n  - command: make\n    plugins: {a#v1: {l: [{z: 1, a: 2}]}, b#v1: 5, c#v1: {l: [{y: 1, b: 2}]}}\n    env: [x]\n")
+	// !!binary scalars whose payload is NOT valid UTF-8 (0xFF, 0xC3 0x28), as values and keys inside order-preserving maps
+	c13Seeds = append(c13Seeds, "env: {A: !!binary /w==, B: !!binary wyg=}\nsteps:\n  - command: x\n    agents: {queue: !!binary /w==}\n  - trigger: t\n    build: {message: !!binary wyg=, env: {K: !!binary /w==}}\n",
+		"steps:\n  - mystery: !!binary /w==\n    nested: {deep: [!!binary /w==, {k: !!binary wyg=}]}\n  - !!binary /w==\n", "steps:\n  - command: x\n    label: !!binary /w==\n    plugins:\n      - p#v1: {v: !!binary /w==}\n")
 	// layered merges: each layer merges the two fragments of the layer below - 2^depth merge paths, a handful of keys
 	for _, depth := range []int{6, 24, 40} {
 		var sb strings.Builder
